@@ -722,6 +722,30 @@ func init() {
 		}
 		return rvalue{t: t, v: in.convert(rv.t, t, copyVal(rv.get()))}
 	})
+	regRV("OverflowInt", func(in *Interp, fr *frame, rv rvalue, a []value) value {
+		in.mustValid(rv, "OverflowInt")
+		w, signed, ok := intInfo(rv.t)
+		if !ok || w == 0 || !signed {
+			reflPanic("reflect: call of reflect.Value.OverflowInt on " + rv.t.String() + " Value")
+		}
+		x := a[0].(*Term)
+		if w == 64 {
+			return in.ts.False
+		}
+		return in.ts.Ne(x, in.ts.Sext(in.ts.Extract(x, w-1, 0), 64))
+	})
+	regRV("OverflowUint", func(in *Interp, fr *frame, rv rvalue, a []value) value {
+		in.mustValid(rv, "OverflowUint")
+		w, signed, ok := intInfo(rv.t)
+		if !ok || w == 0 || signed {
+			reflPanic("reflect: call of reflect.Value.OverflowUint on " + rv.t.String() + " Value")
+		}
+		x := a[0].(*Term)
+		if w == 64 {
+			return in.ts.False
+		}
+		return in.ts.Ne(x, in.ts.Zext(in.ts.Extract(x, w-1, 0), 64))
+	})
 	regRV("MapIndex", func(in *Interp, fr *frame, rv rvalue, a []value) value {
 		in.mustValid(rv, "MapIndex")
 		m, _ := rv.get().(*hmap)
